@@ -683,3 +683,93 @@ pub fn c18_child(file: &str, threads: usize) {
         }
     }
 }
+
+// ---------------------------------------------------------------------------------------------
+// C17, added after the seventh round of seeded changes: other logger levels, and what one refusal leaves behind
+// for the next
+
+/// (1) Refusals at the signature comparison observed with the logger's maximum level at Debug, Info and Warn (the
+/// main C17 stage runs at Trace): no record at debug level or above and no error text may carry the valid signature.
+/// (2) Two refusals back to back on one thread: a request whose presented signature has an unusual length (refused at
+/// the comparison), then a request refused by another rule: nothing observable about the second may carry the
+/// valid signature of the first.
+pub fn c17_levels_and_histories(ctx: &mut Ctx) {
+    install_logger();
+    CAPTURE.store(true, std::sync::atomic::Ordering::Relaxed);
+    let mut rng = ctx.rng.fork();
+    let n = ctx.n(40, 600);
+    let leak_scan = |ctx: &mut Ctx, o: &Obs, sent: &Case, needles: &[(String, Vec<u8>)], class: &str, what_for: &str| {
+        let mut own: Vec<u8> = sent.uri.clone().into_bytes();
+        for (_, v) in &sent.headers {
+            own.push(b'\n');
+            own.extend_from_slice(v);
+        }
+        let mut texts: Vec<(String, String)> = vec![("error Display".into(), o.err_display.clone()), ("error Debug".into(), o.err_debug.clone())];
+        for (l, m) in &o.debug_logs {
+            texts.push((format!("log record at {}", l), m.clone()));
+        }
+        for (what, text) in &texts {
+            for (nm, needle) in needles {
+                if !contains(&own, needle) && contains(text.as_bytes(), needle) {
+                    ctx.rep.fail(Failure { kind: "ORACLE", op: "OBS".into(), class: class.into(), input: format!("{} — {}", what_for, sent.describe()), imp: format!("{}: {}", what, text.chars().take(300).collect::<String>()), model: String::new(), spec: nm.clone(), clause: format!("C17: {} appears in {}", nm, what) });
+                }
+            }
+        }
+    };
+    for i in 0..n {
+        let l = simple_logical(if i % 2 == 0 { Carrier::Header } else { Carrier::Query }, 1_440_938_160_000_000_000);
+        let now = now_for(&l, 0);
+        let s = sign_and_spell(&l, &mut rng, &Spelling::plain(), now);
+        let good = s.signature.clone();
+        let needles: Vec<(String, Vec<u8>)> = vec![("valid signature of the refused request".into(), good.clone().into_bytes()), ("valid signature of the refused request, upper-case".into(), good.to_uppercase().into_bytes())];
+        // (1) right digits, wrong rendering, at each maximum level
+        let renderings: Vec<String> = vec![
+            good.to_uppercase(),
+            good.chars().enumerate().map(|(k, ch)| if k % 2 == 0 { ch.to_ascii_uppercase() } else { ch }).collect(),
+            format!("\"{}\"", good),
+            format!(" {}", good),
+            format!("{}\t", good.to_uppercase()),
+            { let mut b = good.clone().into_bytes(); b[10] = if b[10] == b'0' { b'1' } else { b'0' }; String::from_utf8(b).unwrap() },
+        ];
+        for (lv_i, level) in [log::LevelFilter::Debug, log::LevelFilter::Info, log::LevelFilter::Warn, log::LevelFilter::Error].iter().enumerate() {
+            let mut c = s.case.clone();
+            set_signature(&mut c, &good, &renderings[(i + lv_i) % renderings.len()]);
+            if c.uri == s.case.uri && c.headers == s.case.headers {
+                continue;
+            }
+            log::set_max_level(*level);
+            let o = observe(&c);
+            log::set_max_level(log::LevelFilter::Trace);
+            ctx.rep.count("evaluations");
+            ctx.rep.count("evaluations.OBS_LEVEL");
+            if let Some(o) = o {
+                if o.class != "OK" {
+                    leak_scan(ctx, &o, &c, &needles, "c17-leak-at-level", &format!("logger maximum level {:?}", level));
+                }
+            }
+        }
+        // (2) an unusual-length signature refused at the comparison, then another refusal
+        let odd: String = match i % 6 { 0 => String::new(), 1 => good[..10].to_string(), 2 => good[..63].to_string(), 3 => format!("{}0", good), 4 => format!("{}{}", good, good), _ => "zz".to_string() };
+        let mut a = s.case.clone();
+        set_signature(&mut a, &good, &odd);
+        let mut b = s.case.clone();
+        match (i / 6) % 5 {
+            0 => b.region = "other-region-1".into(),
+            1 => b.service = "otherservice".into(),
+            2 => b.now = (b.now.0 + 86_400, 0),
+            3 => { let bad: String = good.chars().rev().collect(); set_signature(&mut b, &good, &bad); b.region = "r2".into(); }
+            _ => b.answer = Answer::Err(ProvErr::Sig("InvalidClientTokenId")),
+        }
+        // b is another client's request: it does not carry a's valid signature
+        let other: String = good.chars().map(|ch| if ch == 'a' { 'b' } else if ch == '1' { '2' } else { ch }).collect();
+        set_signature(&mut b, &good, &other);
+        if let (Some(_oa), Some(ob)) = (observe(&a), observe(&b)) {
+            ctx.rep.count("evaluations");
+            ctx.rep.count("evaluations.OBS_AFTER");
+            if ob.class != "OK" {
+                leak_scan(ctx, &ob, &b, &needles, "c17-leak-from-previous-request", "the request validated just before on this thread was refused at the signature comparison (presented signature of unusual length)");
+            }
+        }
+    }
+    CAPTURE.store(false, std::sync::atomic::Ordering::Relaxed);
+}
